@@ -295,6 +295,7 @@ func c07Exec(cfg c07Cfg, path []int, closing bool) (menu int, v *fw.Violation, x
 }
 
 func runC07(c *fw.Ctx) {
+	runSpxFamily(c, "C07")
 	thorough := c.Tier == "thorough"
 	cfgs := []c07Cfg{
 		{0, []int{3}, []int{0}}, {1, []int{6}, []int{1}}, {5, []int{6, 3}, []int{0, 2}}, {1, []int{3, 1}, []int{2, 0}},
